@@ -61,6 +61,23 @@ def run(res, args):
         else:
             doc = bytes(rng.randrange(256) for _ in range(rng.randint(0, 60))); force = rng.choice(langs); dist['random'] += 1
         lines.append(f'W2X {force} {rng.choice([0, 0, 0, 106, 3, 4, 1000, 999])} {opts()} {doc.hex() or "-"}')
+    # every length / index field of valid documents overwritten with values beyond the bytes present, incl. the
+    # values next to 2^32 where a position + length sum wraps (memory safety of the bounds tests themselves)
+    import wbwalk
+    from props.c13 import exceeding_values
+    nfield = 0
+    for name, doc in (docs if not quick else rng.sample(docs, 50)):
+        w = wbwalk.fields(doc, ext_t_has_arg=name.startswith('wv'))
+        if w is None:
+            continue
+        fields, end, strtbl = w
+        for f in fields:
+            after = f['offset'] + f['nbytes']
+            for v in exceeding_values(f, doc, strtbl, False) + [2 ** 32 - 1, 2 ** 32 - 2, 2 ** 32 - after, 2 ** 32 - after + 1, 2 ** 32 - after - 1, 2 ** 31]:
+                if 0 <= v < 2 ** 32:
+                    mdoc = doc[:f['offset']] + wbgen.mb(v) + doc[after:]
+                    lines.append(f'W2X 0 0 {opts()} {mdoc.hex()}'); nfield += 1
+    dist['length-and-index-fields-overwritten'] = nfield
     # small-scope exhaustive stream: every body of at most k octets over the octets that steer the parser,
     # behind a WML header (attributes, extensions) and an SI header with a string table, random options
     import itertools
